@@ -35,6 +35,8 @@ pub fn repo_op() -> impl Strategy<Value = Op> {
         1 => Just(Op::CommitStaged),
         2 => Just(Op::CommitAll),
         1 => any::<u16>().prop_map(Op::CreateIgnored),
+        1 => (any::<u16>(), any::<u16>(), any::<u16>()).prop_map(|(a, b, c)| Op::BigWrite(a, b, c)),
+        2 => any::<u16>().prop_map(Op::TailEdit),
     ]
 }
 
@@ -190,6 +192,8 @@ pub fn check(case: &Case, w: usize) -> CheckResult {
         .class_if(h.moved, "move")
         .class_if(h.deleted, "delete")
         .class_if(h.odd_name, "odd-name")
+        .class_if(h.big, "big-file")
+        .class_if(h.tail_edit, "tail-edit")
         .class_if(h.commits.len() > 2, "commits>=2")
         .class_if(!case.ignore_out, "out-dir-not-ignored")
         .inv(h.env.invocations);
